@@ -310,15 +310,17 @@ class SpecifyDomain(ObjectWithSchema):
                     raise ArgumentError(msg)
 
                 errors = []
+                validated = []
                 for schema, arg in zip(schemas, args):
                     try:
-                        schema(arg)
+                        # The validators coerce, e.g., single-entry arrays to numbers
+                        validated.append(schema(arg))
                         errors.append(None)
                     except Invalid as error:
                         errors.append(error)
 
                 if all([error is None for error in errors]):
-                    return func(*args)
+                    return func(*validated)
 
                 lines = ['There was an error evaluating function {0}(...)'.format(func_name)]
                 for index, (shape, error) in enumerate(zip(use_shapes, errors)):
